@@ -10,11 +10,14 @@ What is proved here (machine-checked, unbounded):
     hold.  The proof (`Proofs.DfsGSound.evalG_root_sound`) is the *shared-visited* argument: a region that comes
     back `false` leaves a set of dead sub-problems, and a dead set contains no true member (`closure`).
   * `shared_visited_sound` / `shared_visited_union_sound`: a global visited filter is sound (untainted decisions,
-    every system) and — under faithful keys, no conditional drops behind a shared filter, evaluable conditions
-    (`Proofs.DfsGClean.evalG_clean`: no outcome is ever tainted) — sound *and complete*.  The three hypotheses are
-    exactly the steps where the real filter is **not** sound; each is a ghost taint in the model and has a proved
-    negation witness below (`taint_key_collision_unsound`, `taint_mark_before_condition_unsound`,
-    `taint_swallowed_error_unsound`); on the real code they are the candidate findings V2-A, V2-B, V2-E.
+    every system) and — under faithful keys and evaluable conditions (`Proofs.DfsGClean.evalG_clean`: no outcome is
+    ever tainted) — sound *and complete*.  Each hypothesis is necessary: `taint_key_collision_unsound` (colliding keys:
+    on the real code finding V2-A, **fixed by commit 1d97cee**, tuple-to-userset keys are `parent#computed` now),
+    `taint_swallowed_error_unsound` (finding V2-E, open).  The third hypothesis needed before 1d97cee — no tuple is
+    dropped by the condition filter *after* it claimed its key (finding V2-B) — is gone: the model (`DfsG.pull`)
+    follows the fixed order, `mark_after_condition_sound` is the former witness system, now answered correctly.
+    The recursive strategy (`Recursive.buildTupleMapperForID`, not modelled) still has the old order:
+    `tie_recursive_mapper_order`, known finding V2-B(recursive).
   * `prune_weight_consistent` / `prune_wildcard_consistent`: the pruning tests of `ResolveCheck` agree with what
     `FlattenNode` would leave, under the local well-formedness (`wfWeights`, `wfWildcards`) of the dumped graph.
   * `v2_reducers_spec`: the three receive loops as functions of the arrival sequence — union order independent,
@@ -119,12 +122,13 @@ theorem shared_visited_sound {N : Type} [DecidableEq N] (sys : Sys N) (I : Inter
     exact .node hp
 
 /-- **`shared_visited_union_sound`: sound and complete under the clean conditions.**  If (1) the key handed to the
-visited filter identifies the dispatched sub-problem (`keyOf` injective, never empty, `item.key = keyOf child`, the
-seed is the key of the creating sub-problem), (2) no tuple that reaches a *shared* filter is dropped by the condition
-filter afterwards and (3) every condition can be evaluated, then **every** decision — not only the untainted ones —
-of the evaluation is the least-fixpoint semantics, for every schedule.  These are exactly the hypotheses the real
-engine violates in findings V2-A (tuple-to-userset keys), V2-B (conditions on cycle edges), V2-E (swallowed errors);
-the witnesses below show that each of them is necessary. -/
+visited filter identifies the dispatched sub-problem (`keyOf` injective, never empty, `item.key = keyOf child` for the
+tuples that pass the condition filter, the seed is the key of the creating sub-problem) and (2) every condition can be
+evaluated, then **every** decision — not only the untainted ones — of the evaluation is the least-fixpoint semantics,
+for every schedule.  Since commit 1d97cee the real `buildIterator` satisfies (1) for usersets (`tuple.user`) and for
+tuple-to-usersets (`tuple.user#computed`) and no longer needs the former third hypothesis (no conditional drop behind
+a shared filter: the condition filter runs first); (2) is finding V2-E.  The witnesses below show that (1) and (2)
+are necessary. -/
 theorem shared_visited_union_sound {N : Type} [DecidableEq N] (keyOf : N → String) (sys : Sys N) (I : Interp N)
     (rule : Bool → N → VExpr N) (seed : N → Option String) (policy : Nat → Nat → Bool)
     (hk : KeyOK keyOf) (hclean : ∀ b n, CleanE keyOf (rule b n)) (hseed : ∀ n k, seed n = some k → k = keyOf n)
@@ -152,8 +156,9 @@ def C03_Eval_Full : Prop :=
     ∀ (fuel : Nat) (e : VExpr Nat) (t : Bool),
       VOut.ok false t ∈ (evalG rule seed policy fuel none e).1 → ¬ HoldsP sys I [] (toExpr e)
 
-/-- V2-A in the abstract: two different sub-problems behind one key (`folder:b` for `folder:b#viewer` and
-`folder:b#editor`): the second is skipped although only the first was claimed. -/
+/-- Colliding keys: two different sub-problems behind one key.  (Before commit 1d97cee this was the real engine on a
+tuple-to-userset cycle over two relations — finding V2-A: `folder:b` stood for `folder:b#viewer` and for
+`folder:b#editor`; the second was skipped although only the first had been claimed.) -/
 def ruleA : Bool → Nat → VExpr Nat := fun _ n =>
   if n = 0 then .iter true [{ key := "b", cond := .tt, child := some 1 }]
   else if n = 1 then .iter true [{ key := "b", cond := .tt, child := some 2 }]
@@ -163,14 +168,17 @@ theorem taint_key_collision_unsound :
     (evalG ruleA (fun n => if n = 0 then some "a#r" else none) (lookAhead 2) 8 none (.sub false 0)).1 = [.ok false true] := by
   decide
 
-/-- V2-B in the abstract: the tuple to `1` under a failing condition claims the key; the unconditioned tuple to the
-same userset met later is skipped. -/
+/-- The witness system of finding V2-B (before commit 1d97cee): the tuple to `1` under a failing condition, then an
+unconditioned tuple to the same userset.  With the visited filter *in front of* the condition filter the first tuple
+claimed the key `k` and the second one was skipped: the pre-fix model evaluated this system to the tainted, wrong
+`[ok false true]`.  With the condition filter first (`DfsG.pull`, the code since 1d97cee) nothing is claimed by a
+dropped tuple: -/
 def ruleB : Bool → Nat → VExpr Nat := fun _ n =>
   if n = 0 then .or [.iter true [{ key := "k", cond := .ff, child := some 1 }], .iter true [{ key := "k", cond := .tt, child := some 1 }]]
   else .lit .tt
 
-theorem taint_mark_before_condition_unsound :
-    (evalG ruleB (fun n => if n = 0 then some "a#r" else none) (lookAhead 2) 8 none (.sub false 0)).1 = [.ok false true] := by
+theorem mark_after_condition_sound :
+    (evalG ruleB (fun n => if n = 0 then some "a#r" else none) (lookAhead 2) 8 none (.sub false 0)).1 = [.ok true false] := by
   decide
 
 /-- V2-E in the abstract: the iterator swallows the evaluation error of the first tuple because the second one
@@ -558,17 +566,29 @@ theorem tie_userset_and_ttu : Gen.CheckV2.specificTypeAndRelationConds =
       ["err != nil", "err != nil", "tuple.IsObjectRelation(req.GetTupleKey().GetUser())", "err != nil", "res.GetAllowed()", "w == 2"] := by
   decide
 
-/-- the visited filter is `LoadOrStore` on the tuple's *user*, placed before the condition filter, after the
-contextual tuples were concatenated; the filtered iterator reports a remembered error only if nothing passed -/
+/-- `buildIterator` (since commit 1d97cee): contextual tuples concatenated first, then the condition filter, then the
+visited filter, which is `LoadOrStore` on the tuple's user — with the computed relation appended for the two
+tuple-to-userset callers; the filtered iterator reports a remembered error only if nothing passed.  Reverting the
+fix (filter order or key) breaks this tie. -/
 theorem tie_build_iterator : Gen.CheckV2.buildIteratorCalls =
-    ["iterator.Concat", "BuildUniqueTupleKeyFilter", "BuildConditionTupleKeyFilter"] ∧
+    ["iterator.Concat", "BuildConditionTupleKeyFilter", "BuildUniqueTupleKeyFilter"] ∧
     Gen.CheckV2.buildIteratorConds =
-      ["ok", "visited != nil", "len(conditions) > 1 || conditions[0] != authzGraph.NoCond", "len(iterFilters) > 0"] ∧
-    Gen.CheckV2.visitedKeyIsTupleUser = true ∧ Gen.CheckV2.visitedFilterIsLoadOrStore = true ∧
+      ["ok", "len(conditions) > 1 || conditions[0] != authzGraph.NoCond", "visited != nil", "len(keySuffix) > 0",
+       "len(iterFilters) > 0"] ∧
+    Gen.CheckV2.visitedKeyReturns = ["return key.GetUser() + \"#\" + keySuffix[0]", "return key.GetUser()"] ∧
+    Gen.CheckV2.buildIteratorCallers =
+      ["resolveRecursiveUserset:visited", "resolveRecursiveTTU:computedRelation", "specificTypeAndRelation:visited",
+       "ttu:computedRelation"] ∧
+    Gen.CheckV2.visitedFilterIsLoadOrStore = true ∧
     Gen.CheckV2.evaluateConditionConds = ["!slices.Contains(conditions, t.GetCondition().GetName())"] ∧
     Gen.CheckV2.filterNextConds =
       ["err != nil", "errors.Is(err, storage.ErrIteratorDone)", "f.onceValid || f.lastErr == nil", "err != nil", "!valid"] := by
   decide
+
+/-- the recursive strategy builds its own filter chain and still applies the visited filter **before** the condition
+filter (known finding V2-B(recursive)); when that is repaired this tie has to follow -/
+theorem tie_recursive_mapper_order : Gen.CheckV2.recursiveMapperCalls =
+    ["iterator.Concat", "BuildUniqueTupleKeyFilter", "BuildConditionTupleKeyFilter"] := by decide
 
 /-- cache guards (C08/C10 read them too): the lookup is skipped for HIGHER_CONSISTENCY, an entry is valid only if
 newer than the invalidation time, and only results without error / cancellation are stored -/
@@ -658,7 +678,7 @@ example : (evalG (ruleC .ff) (fun n => if n = 0 then some "k0" else none) (lookA
 
 /-- the hypotheses of `shared_visited_union_sound` are satisfiable: the cyclic system above with the keys
 `k0 k1 k2` of its three sub-problems -/
-def keyC (n : Nat) : String := if n = 0 then "k0" else if n = 1 then "k1" else if n = 2 then "k2" else String.mk (List.replicate (n + 1) 'z')
+def keyC (n : Nat) : String := if n = 0 then "k0" else if n = 1 then "k1" else if n = 2 then "k2" else String.ofList (List.replicate (n + 1) 'z')
 
 example (leaf : Leaf) (hl : leaf ≠ .errSw) (b : Bool) (n : Nat) : CleanE keyC (ruleC leaf b n) := by
   unfold ruleC
@@ -666,14 +686,14 @@ example (leaf : Leaf) (hl : leaf ≠ .errSw) (b : Bool) (n : Nat) : CleanE keyC 
   · refine .iter _ _ ?_
     intro it hit
     simp at hit; subst hit
-    exact ⟨Or.inl rfl, fun _ => ⟨rfl, 1, rfl, by simp [keyC]⟩⟩
+    exact ⟨Or.inl rfl, fun _ _ => ⟨1, rfl, by simp [keyC]⟩⟩
   · split
     · refine .iter _ _ ?_
       intro it hit
       simp at hit
       rcases hit with rfl | rfl
-      · exact ⟨Or.inl rfl, fun _ => ⟨rfl, 0, rfl, by simp [keyC]⟩⟩
-      · exact ⟨Or.inl rfl, fun _ => ⟨rfl, 2, rfl, by simp [keyC]⟩⟩
+      · exact ⟨Or.inl rfl, fun _ _ => ⟨0, rfl, by simp [keyC]⟩⟩
+      · exact ⟨Or.inl rfl, fun _ _ => ⟨2, rfl, by simp [keyC]⟩⟩
     · exact .lit _ hl
 
 end OpenFGAVerif.C03
